@@ -29,6 +29,9 @@ type ClientOpts struct {
 	MaprMode clients.MaprClientMode
 	// Before runs inside the execution before the client is created.
 	Before func()
+	// ForceServerless makes every server of ServersStr an in-process server
+	// (its own Serverless connector and ServerHandler).
+	ForceServerless bool
 }
 
 // RunClientBody is the body of main() of dcat/dgrep/dtail/dmap, to be called
@@ -44,6 +47,9 @@ func RunClientBody(o ClientOpts) ClientResult {
 	}
 	if o.Before != nil {
 		o.Before()
+	}
+	if o.ForceServerless {
+		args.Serverless = true
 	}
 	var cl clients.Client
 	var err error
